@@ -818,7 +818,7 @@ def counts_case(rng, T, tname):
     from ..gen.programs import ProgramGen, dumps
     flavour = rng.choice(['float', 'float', 'float', 'float', 'fraction', 'decimal'])
     cg = CountsGen(rng, flavour)
-    pg = ProgramGen(T, rng, positive=True, leaf_count=cg.number, multiplier=cg.multiplier, names=False,
+    pg = ProgramGen(T, rng, positive=True, protocols=True, leaf_count=cg.number, multiplier=cg.multiplier, names=False,
                     p_dt=0.1, string_counts=cg.string_count)
     pg.fgen.p_dt = 0.1
     prog = pg.program(rng.choice([1, 1, 2, 3, 4, 6]))
